@@ -103,8 +103,8 @@ theorem sameS_clearJobs (s : Sys) (self : Cid) : SameS s (clearJobs s self) := b
     ⟨rfl, fun _ => rfl⟩
   exact h0.trans (sameS_upd _ self _ (fun _ => rfl))
 
-theorem sameS_onSupervise (s : Sys) (self : Cid) (chain : List (Cid × List Cid)) : SameS s (onSupervise s self chain) := by
-  unfold onSupervise
+theorem sameS_onSuperviseDecide (s : Sys) (self : Cid) (chain : List (Cid × List Cid)) : SameS s (onSuperviseDecide s self chain) := by
+  unfold onSuperviseDecide
   simp only
   have h0 : SameS s (if (s.ctx self).strat = 0 then s else upd s self (fun x => { x with decIdx := x.decIdx + 1 })) := by
     split
@@ -119,6 +119,12 @@ theorem sameS_onSupervise (s : Sys) (self : Cid) (chain : List (Cid × List Cid)
       | apply ss_tell
       | apply ss_say
       | (apply ss_upd; · intro _; rfl))
+
+theorem sameS_onSupervise (s : Sys) (self : Cid) (chain : List (Cid × List Cid)) : SameS s (onSupervise s self chain) := by
+  unfold onSupervise
+  split
+  · exact sameS_onSuperviseDecide _ _ _
+  · exact sameS_tell _ _ _ _ _
 
 end Vivid.ActorSys
 
